@@ -129,6 +129,11 @@ func (v *VerifSession) Recv(data []byte) (errs string, panicked string) {
 	return "", ""
 }
 
+// MaxUnit / SendBuf: the per-frame payload maximum and the send-buffer size the session derived from its limit.
+func (v *VerifSession) MaxUnit() int { return v.s.maxStreamUnitWrite }
+func (v *VerifSession) SendBuf() int { return v.s.streamSendBufferSize }
+func (v *VerifSession) Limit() int   { return v.s.MsgOnWireSizeLimit }
+
 func (v *VerifSession) IsClosed() bool { return v.s.IsClosed() }
 
 // State is a digest of the session state a received frame can change: closed flag, number of live streams,
